@@ -97,9 +97,22 @@ func HarnessC17Calls() {
 	verifOwn(ud.NewDelPos, "result.UpdateData.NewDelPos")
 	verifOwn(ud.NewAddHash, "result.UpdateData.NewAddHash")
 	verifOwn(ud.NewAddPos, "result.UpdateData.NewAddPos")
+	// remembered additions: any subset of the block's additions (indexes ascending) when remSub=1,
+	// every addition otherwise
 	var rem []uint32
-	for i := range adds {
-		rem = append(rem, uint32(i))
+	if verifParam("remSub", 0) == 1 {
+		var pool []int
+		for i := range adds {
+			pool = append(pool, i)
+		}
+		for _, i := range refPickCombo("remember", pool, len(pool)) {
+			rem = append(rem, uint32(i))
+		}
+		verifOwn(rem, "block.remembers")
+	} else {
+		for i := range adds {
+			rem = append(rem, uint32(i))
+		}
 	}
 	cp := cachedProof
 	newHashes, err := cp.Update(cachedHashes, adds, targets, rem, ud)
